@@ -782,8 +782,6 @@ struct C08 : Property
 				close(fd);
 				e.failed = o == nullptr;
 				e.result = typed_dump(o);
-				if (!o && json_util_get_last_err() == nullptr)
-					bad(ctx, "bad-failure-channel", e, fails, ti, "json_object_from_fd returned NULL without a retrievable error message");
 				if (o)
 					extra.push_back(o);
 			}
